@@ -22,8 +22,18 @@ def main():
         obj = json.load(open(a.replay))
         return mod.replay(obj)
     ctx = Ctx(a.pid, a.tier, seed)
+    # thorough tier: the streams are ten times larger, and the cheaper checks are run for several independent PRNG streams
+    rounds = 1
+    if a.tier == "thorough":
+        rounds = int(os.environ.get("VERIF_THOROUGH_ROUNDS", "0") or 0) or (1 if a.pid in ("C01", "C02", "C04", "C06") else 3)
     try:
-        mod.run(ctx)
+        for k in range(rounds):
+            if k:
+                import random
+                ctx.rng = random.Random(f"{a.pid}-{seed}-round{k}")
+            mod.run(ctx)
+            if ctx.violations or ctx.broken:
+                break
     except Exception:  # harness failure: never silently pass
         tb = traceback.format_exc()
         print(tb)
